@@ -50,13 +50,30 @@ Definition FUEL : nat := 600.
 
 Definition of_ogrid (o : option (grid bool)) : sx := of_option of_boolss o.
 
+(* the same rule with the image shape computed once per step instead of once per neighbour read
+   (what the harness runs; Proofs/LutLoop.v: lut_step_fast = lut_step, hence the entry below
+   evaluates exactly lut_iter / lut_fix) *)
+Definition lut_step_fast (T : list bool) (b : bool) (X : grid bool) : grid bool :=
+  let H := gH X in
+  let W := gW X in
+  let rdx := fun p q => if inr H W p q then rd false X p q else b in
+  tab (length X) (length (hd [] X))
+      (fun p q => tbl T (enc [ rdx (p - 1) (q - 1); rdx (p - 1) q; rdx (p - 1) (q + 1);
+                               rdx p (q - 1);       rdx p q;       rdx p (q + 1);
+                               rdx (p + 1) (q - 1); rdx (p + 1) q; rdx (p + 1) (q + 1) ])).
+Fixpoint lut_fix_fast (fuel : nat) (T : list bool) (b : bool) (X : grid bool) : option (grid bool) :=
+  match fuel with
+  | O => None
+  | S f => let Y := lut_step_fast T b X in if grid_eqb Y X then Some X else lut_fix_fast f T b Y
+  end.
+
 (* [img; table; border; iters]   iters < 0 means "until nothing changes" *)
 Definition entry_spec (x : sx) : sx :=
   let X := as_boolss (arg 0 x) in
   let T := as_bools (arg 1 x) in
   let b := as_bool (arg 2 x) in
   let k := as_Z (arg 3 x) in
-  if k <? 0 then of_ogrid (lut_fix FUEL T b X) else of_ogrid (Some (lut_iter (Z.to_nat k) T b X)).
+  if k <? 0 then of_ogrid (lut_fix_fast FUEL T b X) else of_ogrid (Some (iter (Z.to_nat k) (lut_step_fast T b) X)).
 
 (* [img] -> the neighbourhood index of every pixel with border value 0 *)
 Definition entry_specidx (x : sx) : sx :=
